@@ -20,7 +20,9 @@
 (***************************************************************************)
 EXTENDS SCProps, Json
 
-CONSTANTS MaxNow,        \* horizon of virtual time (ms)
+CONSTANTS EngineS,       \* "async": the asyncio Interpreter (consumer task, call_at handles);
+                         \* "sync": SyncInterpreter, whose `after` timers are threads that call send() at expiry
+          MaxNow,        \* horizon of virtual time (ms)
           WaitSteps,     \* set of dt for DWait
           MaxDepth,      \* bound on the number of driver steps
           PropSetS       \* props evaluated per edge
@@ -109,12 +111,13 @@ GVs == [D.guards -> {"T", "F"}]
 
 DStart == /\ status = "uninitialized"
           /\ \E gv \in GVs :
-               Commit(StartStep(SPack, gv, "async"), [op |-> "start", ev |-> "", gv |-> gv, dt |-> 0], now, timers, 0, 0, seq)
+               Commit(StartStep(SPack, gv, EngineS), [op |-> "start", ev |-> "", gv |-> gv, dt |-> 0], now, timers, 0, 0, seq)
 
 DSend == /\ status # "uninitialized"
          /\ \E ev \in D.events : \E gv \in GVs :
               LET st0 == Enqueue([SPack EXCEPT !.gv = gv], PlainEv(ev), "async")
-              IN Commit(RunToIdle(st0), [op |-> "send", ev |-> ev, gv |-> gv, dt |-> 0], now, timers, busy, busySeq, seq)
+              IN Commit(IF EngineS = "sync" THEN SendStep(SPack, ev, gv, "sync") ELSE RunToIdle(st0),
+                        [op |-> "send", ev |-> ev, gv |-> gv, dt |-> 0], now, timers, busy, busySeq, seq)
 
 NextDeadline == LET ds == {t.due : t \in timers} \cup (IF busy > 0 THEN {busy} ELSE {})
                 IN IF ds = {} THEN MaxNow + 1 ELSE CHOOSE d \in ds : \A x \in ds : d <= x
@@ -141,7 +144,31 @@ FireDue(st, due, bz, gv) ==
        ELSE \* the slow action ends: the consumer resumes and runs until it blocks again
           FireDue(AsyncLoop([Log(st, L("slow_end", "", "", {})) EXCEPT !.out = @ \o deferred], gv, D.fuel), Tail(due), 0, gv)
 
+\* Sync engine: each timer is a thread blocked in Event.wait(delay); at expiry (in deadline, then creation
+\* order) the thread itself checks that the interpreter is running and the owner still active and then calls
+\* send(), which runs the whole macrostep inline before the next thread wakes.
+RECURSIVE FireDueSync(_, _, _)
+FireDueSync(st, due, gv) ==
+  IF due = <<>> THEN st
+  ELSE LET h == Head(due) IN
+       IF CancelledInStep(st, h.timer.owner) \/ st.status # "running" \/ h.timer.owner \notin st.config
+       THEN FireDueSync(st, Tail(due), gv)
+       ELSE LET ev == [type |-> h.timer.key, kind |-> "after", src |-> ""]
+                st1 == Log(st, L("timer_fired", h.timer.owner, h.timer.key, {ToString(h.timer.seq)}))
+            IN FireDueSync(SyncDrain(Enqueue(st1, ev, "sync"), gv, 1, "sync"), Tail(due), gv)
+
+DAdvanceSync ==
+  /\ EngineS = "sync" /\ status # "uninitialized" /\ NextDeadline <= MaxNow
+  /\ \E gv \in GVs :
+       LET t == NextDeadline
+           hs == {[kind |-> "timer", seq |-> x.seq, timer |-> x] : x \in {y \in timers : y.due = t}}
+           due == SortBy(hs, [h \in hs |-> h.seq])
+           \* an expired timer's thread is gone whether or not it sent anything
+           tm == {x \in timers : x.due # t}
+       IN Commit(FireDueSync([SPack EXCEPT !.gv = gv], due, gv), [op |-> "advance", ev |-> "", gv |-> gv, dt |-> t - now], t, tm, 0, 0, seq)
+
 DAdvance ==
+  /\ EngineS = "async"
   /\ status # "uninitialized" /\ NextDeadline <= MaxNow
   /\ \E gv \in GVs :
        LET t == NextDeadline
@@ -157,12 +184,14 @@ DAdvance ==
 \* interpreter is stopped/done/error), the plugin hook runs, and an error nobody declared a handler for
 \* puts the interpreter into the error status before the consumer gets to run
 DResolve ==
+  /\ EngineS = "async"
   /\ status # "uninitialized"
   /\ \E v \in svcs : \E gv \in GVs :
        LET ev == [type |-> D.doneInvokeEv[v.inv], kind |-> "done", src |-> v.inv]
            st0 == Log(Enqueue([SPack EXCEPT !.gv = gv], ev, "async"), L("svc_done", v.inv, "", {}))
        IN Commit(RunToIdle(st0), [op |-> "resolve", ev |-> v.inv, gv |-> gv, dt |-> 0], now, timers, busy, busySeq, seq)
 DReject ==
+  /\ EngineS = "async"
   /\ status # "uninitialized"
   /\ \E v \in svcs : \E gv \in GVs :
        LET ev == [type |-> D.errorInvokeEv[v.inv], kind |-> "done", src |-> v.inv]
@@ -180,7 +209,7 @@ DStop == /\ status \notin {"uninitialized", "stopped"}
          /\ Commit(Log([SPack EXCEPT !.status = "stopped"], L("interp_stop", "", "", {})),
                    [op |-> "stop", ev |-> "", gv |-> <<>>, dt |-> 0], now, {}, 0, 0, seq)
 
-Next == DStart \/ DSend \/ DWait \/ DAdvance \/ DStop \/ DResolve \/ DReject
+Next == DStart \/ DSend \/ DWait \/ DAdvance \/ DAdvanceSync \/ DStop \/ DResolve \/ DReject
 Spec == Init /\ [][Next]_svars
 TimerView == {<<t.owner, t.key, t.due, Cardinality({u \in timers : u.seq < t.seq})>> : t \in timers}
 SvcView == {<<v.owner, v.inv, Cardinality({u \in svcs : u.seq < v.seq})>> : v \in svcs}
